@@ -2,6 +2,7 @@
 # usage: tools/seedtest_scratch.sh <seed id> [<property>] : like seedtest.sh but on a scratch export of /repo's HEAD ($SCRATCH, default
 # /var/tmp/pbh) with a scratch evidence directory -- for use while /repo itself is busy (a matrix run).  Development aid, not registered.
 ID="$1"; HERE="$(cd "$(dirname "$0")/.." && pwd)"; SCRATCH="${SCRATCH:-/var/tmp/pbh}"
+[ -d "$SCRATCH/pybrops" ] || { mkdir -p "$SCRATCH" && git -C /repo archive HEAD | tar -x -C "$SCRATCH"; }   # scratch export of /repo HEAD (outside /repo and /verif; remove it when done)
 PID="${2:-$(python3 -c "import json;print(json.load(open('$HERE/seeded/$ID/meta.json'))['property'])")}"
 ( cd "$SCRATCH" && patch -p1 -s < "$HERE/seeded/$ID/patch.diff" ) || exit 9
 mkdir -p /var/tmp/ev
